@@ -520,6 +520,39 @@ func scIdle(kind string, enc, comp bool) func(x *vs.Exec) {
 	}
 }
 
+// deadbackend: the proxy's local service refuses connections. "In every case the peer's connection is closed within
+// bounded time": the user must not be left hanging on a tunnel that leads nowhere.
+func scDeadBackend(enc, comp bool) func(x *vs.Exec) {
+	return func(x *vs.Exec) {
+		defer sw.Guard()
+		w := tw.New(x, sw.Opt{AllowPorts: sw.P(20000, 20003), UserConnTimeout: 5, HeartbeatTimeout: -1})
+		p := &v1.TCPProxyConfig{}
+		p.Name, p.Type, p.LocalIP, p.LocalPort, p.RemotePort = "p", "tcp", "127.0.0.1", 8099, 20000 // nothing listens on 8099
+		p.Transport.UseEncryption, p.Transport.UseCompression = enc, comp
+		cl := w.StartClient("owner", "", []v1.ProxyConfigurer{p}, nil, nil)
+		if !w.AwaitRunning(cl, 30*time.Second, "p") {
+			vs.Fail("setup: proxy not running")
+			return
+		}
+		w.Quiesce()
+		vs.SetInterest(true)
+		u, err := w.H.DialFrom("10.6.1.1:5001", "127.0.0.1:20000")
+		if err != nil {
+			vs.Fail("deadbackend: dial: %v", err)
+			return
+		}
+		u.Write([]byte("anybody there?"))
+		closed := vs.BlockFor("user-closed", 60*time.Second, func() bool { return u.PeerClosed() })
+		vs.SetInterest(false)
+		if !closed {
+			vs.Fail("the proxy's local service refuses connections (enc=%v comp=%v): 60 s later the user's connection is still open — a tunnel that leads nowhere must be closed", enc, comp)
+		}
+		u.Close()
+		w.Quiesce()
+		w.StopAll()
+	}
+}
+
 // retarget: a reload changes only where a proxy's traffic goes locally (localPort), nothing the server is told about.
 // "A connection made to one proxy's public endpoint is bridged to that proxy's backend and to no other backend":
 // after the reload that is the new backend.
@@ -662,6 +695,8 @@ func scenarios() {
 			s.Body = scIdle(f[1], f[2][0] == '1', f[2][1] == '1')
 		case "retarget":
 			s.Body = scRetarget(f[1])
+		case "deadbackend":
+			s.Body = scDeadBackend(f[1][0] == '1', f[1][1] == '1')
 		case "split":
 			var p int
 			fmt.Sscanf(f[2], "%d", &p)
@@ -678,7 +713,7 @@ func main() {
 	if c == nil {
 		return
 	}
-	c.Rule("E1: real frps + real frpc (+ a real frpc as stcp visitor) on the virtual network and clock. Complete product of proxy kind {tcp, stcp via visitor, tcpmux CONNECT, https SNI} x encryption x compression x bandwidth limit {none, client, server} x PROXY protocol {-, v1, v2} x payload size x content x write chunking x direction x close order (quick: a fully enumerated sub-lattice, thorough: the full lattice), first bytes split at every position, a connection used again after 75 s of silence (kind x encryption x compression), a reload that moves a proxy to another local backend (tcp, stcp), 2 proxies x 2 simultaneous connections under deviation-bounded DFS; non-trivial = distinct end state / observation trace")
+	c.Rule("E1: real frps + real frpc (+ a real frpc as stcp visitor) on the virtual network and clock. Complete product of proxy kind {tcp, stcp via visitor, tcpmux CONNECT, https SNI} x encryption x compression x bandwidth limit {none, client, server} x PROXY protocol {-, v1, v2} x payload size x content x write chunking x direction x close order (quick: a fully enumerated sub-lattice, thorough: the full lattice), first bytes split at every position, a connection used again after 75 s of silence (kind x encryption x compression), a reload that moves a proxy to another local backend (tcp, stcp), a proxy whose local service refuses connections (the user's connection is closed), 2 proxies x 2 simultaneous connections under deviation-bounded DFS; non-trivial = distinct end state / observation trace")
 	c.Assume("transport dimension kcp/quic/websocket/yamux/TLS is exercised with real sockets in C05/C02 parts, not here")
 	pool := vs.GetPool(c.Workers)
 	var names []string
@@ -734,7 +769,7 @@ func main() {
 			names = append(names, "idle/"+k+"/"+ec)
 		}
 	}
-	names = append(names, "retarget/tcp", "retarget/stcp")
+	names = append(names, "retarget/tcp", "retarget/stcp", "deadbackend/00", "deadbackend/10", "deadbackend/01", "deadbackend/11")
 	maxSplit := drv.Pick(c, 40, 600)
 	for pos := 1; pos <= maxSplit; pos++ {
 		names = append(names, fmt.Sprintf("split/tcpmux/%d", pos), fmt.Sprintf("split/https/%d", pos))
